@@ -26,7 +26,7 @@ def privEnd2 : Nat := 0xFFFFE
 def privStart3 : Nat := 0x100000
 def privEnd3 : Nat := 0x10FFFE
 
--- graphics/extract/font-metrics.go: decodeCompositeWidths / getSimpleWidths
+-- graphics/extract/font-metrics.go: decodeCompositeWidths / getSimpleWidthsErr (body of getSimpleWidths since D88)
 def maxCID : Nat := 65535
 def maxWEntries : Nat := 65536
 
